@@ -37,6 +37,8 @@ type Addr struct {
 	RootType types.Type // type of the value stored at the root location
 	Path     []pathStep
 	Typ      types.Type // type of the addressed value
+	Cond     string     // conditional address: this address if Cond holds, otherwise Alt
+	Alt      *Addr
 }
 
 // State is the symbolic machine state at a program point.
@@ -200,6 +202,13 @@ func (fc *fnCtx) update(root string, path []pathStep, v string) string {
 }
 
 func (fc *fnCtx) loadAddr(st *State, a *Addr) Val {
+	if a.Alt != nil {
+		x := *a
+		x.Alt, x.Cond = nil, ""
+		v1 := fc.loadAddr(st, &x)
+		v2 := fc.loadAddr(st, a.Alt)
+		return Val{T: Ite(a.Cond, v1.T, v2.T), Sort: v1.Sort, Typ: a.Typ}
+	}
 	v := fc.rootLoad(st, a)
 	for _, p := range a.Path {
 		v = project(v, p)
@@ -208,6 +217,28 @@ func (fc *fnCtx) loadAddr(st *State, a *Addr) Val {
 }
 
 func (fc *fnCtx) storeAddr(st *State, a *Addr, v string) {
+	if a.Alt != nil {
+		x := *a
+		x.Alt, x.Cond = nil, ""
+		s1, s2 := st.clone(), st.clone()
+		fc.storeAddr(s1, &x, v)
+		fc.storeAddr(s2, a.Alt, v)
+		names := map[string]bool{}
+		for n, t := range s1.heap {
+			if st.heap[n] != t {
+				names[n] = true
+			}
+		}
+		for n, t := range s2.heap {
+			if st.heap[n] != t {
+				names[n] = true
+			}
+		}
+		for _, n := range sortedKeys(names) {
+			fc.setH(st, n, Ite(a.Cond, fc.H(s1, n), fc.H(s2, n)))
+		}
+		return
+	}
 	if len(a.Path) == 0 {
 		fc.rootStore(st, a, v)
 		return
@@ -345,7 +376,16 @@ func (fc *fnCtx) storeThrough(st *State, p Val, v string) {
 // fieldAddr computes &x.f for pointer-to-struct x.
 func (fc *fnCtx) fieldAddr(x Val, structT types.Type, i int) Val {
 	if x.MaybeElt {
-		bail("field access through a pointer that may address a slice element")
+		// the pointer is either an element of a slice of structs or a heap object: conditional address
+		si := fc.so.structOf(structT)
+		ft := si.st.Field(i).Type()
+		if isStruct(ft) {
+			bail("nested struct field through a pointer that may address a slice element")
+		}
+		elt := &Addr{Root: rootElem, Heap: fc.elemHeap(structT), Key: App("earr", x.T), Idx: App("eidx", x.T), RootType: structT,
+			Path: []pathStep{{si: si, fidx: i}}, Typ: ft, Cond: "((_ is Elt) " + x.T + ")"}
+		elt.Alt = &Addr{Root: rootField, Heap: fc.fieldHeap(si, i), Key: x.T, RootType: ft, Typ: ft}
+		return Val{Typ: types.NewPointer(ft), Sort: "Ref", Addr: elt}
 	}
 	si := fc.so.structOf(structT)
 	ft := si.st.Field(i).Type()
